@@ -492,3 +492,5 @@ M('C07', 'take normalises negative indices in the caller array', 'function.py', 
 M('C07', 'slice stop 0 treated as negative', 'function.py', "        stop = n if s.stop is None else s.stop if s.stop >= 0 else s.stop + n\n        if start == 0 and stop == n:\n            return array\n        length = stop - start", "        stop = n if s.stop is None else s.stop if s.stop > 0 else s.stop + n\n        if start == 0 and stop == n:\n            return array\n        length = stop - start", rule='R07.6')
 M('C07', 'revert F13: matmul without alignment check', 'function.py', "        if arg1.shape[-1] != arg2.shape[-1 if arg2.ndim == 1 else -2]:\n            raise ValueError(f'shapes {arg1.shape} and {arg2.shape} are not aligned')\n        if arg2.ndim == 1:", "        if arg2.ndim == 1:", rule='R07.7')
 M('C02', 'LoopSum compiles in place before out exists', 'evaluable.py', "        if out_block_id > builder.get_block_id(self.index):\n            # The loop body comes before the definition of `out`.\n            return NotImplemented\n        if mode == 'assign':", "        if mode == 'assign':", rule='R02.3')
+M('C20', 'locate: maxdist guard compares the tol dimension', 'SI.py', "        if not (dimmaxdist == Dimensionless and maxdist is None or dimmaxdist == dimgeom):", "        if not (dimmaxdist == Dimensionless and maxdist is None or dimtol == dimgeom):", rule='R20.1')
+M('C20', 'mod moved to the quotient rule', 'SI.py', "    @register(operator.mod)\n    @register(operator.sub)\n    def __add_like", "    @register(operator.sub)\n    def __add_like", expect='silent')
